@@ -86,7 +86,7 @@ sec8 = ["## 8. Seeded changes: which check catches which change\n",
         "round 1 (ids `Cxx`, `Cxxb`) was available to the builders while they tuned their checks; rounds 2-5 (`c/d`, `e/f`, `g/h`, `i/j`) were "
         "each first run BLIND against the checks as they stood, then used to strengthen the generators *generically* (never by "
         "special-casing a patch): blind detection 31/40, 26/40, 32/40 (29 with a concrete replay), 31/40 (30 concrete; two seeded "
-        "changes made the implementation loop forever and hung the check, which led to the watchdog of section 4); a sixth, smaller blind round (`k`: one change each for C06, C09, C13, C14, C16, C17, written after all strengthening) was caught 6/6 at quick tier, each with a concrete replay. The classes of "
+        "changes made the implementation loop forever and hung the check, which led to the watchdog of section 4); a sixth, smaller blind round (`k`: one change each for C01, C05, C06, C07, C08, C09, C11, C12, C13, C14, C15, C16, C17, C19, written after all strengthening) was caught 14/14 at quick tier, each with a concrete replay. The classes of "
         "input each blind round showed to be missing are the lessons (a)-(s) of `AGENT_BRIEF.md`: history sensitivity / state leaking "
         "between calls, optional parameters, fresh string objects, sizes past 256, falsy-but-legal values, related arguments, dropped "
         "references, mutable return values, document-first generation, element-name-keyed code paths, deep positions, parser "
